@@ -155,3 +155,98 @@ Theorem c05_resume_no_go_error : forall (a : assets) (s : session) (r : resume) 
   valid_assets a -> reachable s -> resume_session a s r tmo <> Resumed (RGoError y).
 Proof. exact reachable_resume_no_go_error. Qed.
 Print Assumptions c05_resume_no_go_error.
+
+(* ---- additions after review (docs/reviews/C05.md) --------------------------------------------------------------- *)
+
+(* "Hitting the limit ends the session as failed with a failure event rather than ... returning a Go error",
+   end to end (proofs/EngineLimit.v).
+   (1) The iteration in which the step counter crosses the limit fails the current run and logs, as the last
+       event of the sprint, a failure event of the step-limit kind on that run (naming the step the loop was on). *)
+From Verif Require Import proofs.EngineLimit proofs.EngineResults proofs.EnginePaths.
+
+Theorem c05_limit_crossing : forall (a : assets) (x : st) (l : lstate) (x' : st) (l' : lstate),
+  term_inv a x l -> cuw_iter a x l = ICont x' l' -> ~ hit a l -> hit a l' ->
+  exists c y, l_cur l' = Some c /\ nl x y /\ x' = fail_run y c (l_step l') FStepLimit /\
+              sp_events (sprint_ x') = sp_events (sprint_ y) ++ [(Some c, {| ev_step := l_step l'; ev_kind := EFailure FStepLimit |})] /\
+              st_at (shape (session_ x')) c = Some RFailed.
+Proof. exact cuw_iter_crossing. Qed.
+Print Assumptions c05_limit_crossing.
+
+(* (2) Nothing else logs a failure event of that kind, and (3) a sprint that contains one ends FAILED: for every
+       call that returns without error, if the sprint's events contain a step-limit failure then the session is
+       failed.  (That such a call does not return a Go error / panic / run out of fuel instead is
+       c05_limit_ends_failed, c05_*_no_go_error, c05_*_never_panics, c05_*_terminates.) *)
+Theorem c05_limit_event_means_failed_start : forall (a : assets) (t : trigger) (flow : id) (x' : st),
+  start a t flow = ROk x' ->
+  (exists oe, In oe (sp_events (sprint_ x')) /\ ev_kind (snd oe) = EFailure FStepLimit) ->
+  s_status (session_ x') = SFailed.
+Proof.
+  intros a t flow x' H (oe & Hin & Hk). apply (start_limit_event_failed a t flow x' H).
+  unfold has_limit_event. apply existsb_exists. exists oe. split; [exact Hin|rewrite Hk; reflexivity].
+Qed.
+Print Assumptions c05_limit_event_means_failed_start.
+
+Theorem c05_limit_event_means_failed_resume : forall (a : assets) (s : session) (r : resume) (tmo : text) (x' : st),
+  reachable s -> resume_session a s r tmo = Resumed (ROk x') ->
+  (exists oe, In oe (sp_events (sprint_ x')) /\ ev_kind (snd oe) = EFailure FStepLimit) ->
+  s_status (session_ x') = SFailed.
+Proof.
+  intros a s r tmo x' Hr H (oe & Hin & Hk). apply (reachable_resume_limit_event_failed a s r tmo x' Hr H).
+  unfold has_limit_event. apply existsb_exists. exists oe. split; [exact Hin|rewrite Hk; reflexivity].
+Qed.
+Print Assumptions c05_limit_event_means_failed_resume.
+
+(* (4) Conversely, from a state in which the limit has been crossed and the event is in the sprint, the loop can
+       only end with a failed session that still carries the event - never a Go error, never a panic. *)
+Theorem c05_crossed_ends_failed : forall (a : assets) (t0 fuel : nat) (x : st) (l : lstate),
+  step_inv a t0 x l -> hit a l -> has_limit_event (sp_events (sprint_ x)) = true ->
+  match continue_until_wait fuel a x l with
+  | ROk x' => s_status (session_ x') = SFailed /\ has_limit_event (sp_events (sprint_ x')) = true
+  | ROutOfFuel => True
+  | _ => False
+  end.
+Proof. exact cuw_crossed_ends_failed. Qed.
+Print Assumptions c05_crossed_ends_failed.
+
+(* "Every engine call returns normally": for validated definitions (and, for a start, a trigger whose flow exists)
+   the result of a call is a session, or - for a resume - an engine error; not a Go error, not a panic, not
+   non-termination.  The two places where the Go code would dereference a nil Flow (session.go: GetNode on the
+   current run's flow) are modelled as Go-error results and are therefore excluded by this theorem too. *)
+Theorem c05_start_returns_normally : forall (a : assets) (t : trigger) (flow : id),
+  valid_assets a -> get_flow a flow <> None -> exists x', start a t flow = ROk x'.
+Proof.
+  intros a t flow Hv Hf. destruct (start a t flow) as [x'|y| |] eqn:E; [eauto| | |].
+  - exfalso. eapply start_no_go_error; eauto.
+  - exfalso. eapply start_no_panic; eauto.
+  - exfalso. eapply start_fuel_suffices; eauto.
+Qed.
+Print Assumptions c05_start_returns_normally.
+
+Theorem c05_resume_returns_normally : forall (a : assets) (s : session) (r : resume) (tmo : text),
+  valid_assets a -> reachable s ->
+  (exists code, resume_session a s r tmo = Rejected code) \/ (exists x', resume_session a s r tmo = Resumed (ROk x')).
+Proof.
+  intros a s r tmo Hv Hr. destruct (resume_session a s r tmo) as [code|res] eqn:E; [left; eauto|right].
+  destruct res as [x'|y| |]; [eauto| | |].
+  - exfalso. eapply reachable_resume_no_go_error; eauto.
+  - exfalso. eapply resume_no_panic; eauto.
+  - exfalso. eapply reachable_resume_fuel_suffices; eauto.
+Qed.
+Print Assumptions c05_resume_returns_normally.
+
+(* The stored result values (not only those announced in events): in every session reached over one store, every
+   result kept by a run has a value of at most max(MaxResultChars, 0) characters. *)
+Theorem c05_stored_result_values : forall (a : assets) (s : session), reachable_in a s ->
+  forall i r res, nth_error (s_runs s) i = Some r -> In res (r_results r) ->
+  (Z.of_nat (length (res_value res)) <= Z.max (max_result_chars (a_opts a)) 0)%Z.
+Proof. intros a s H i r res Hi Hin. exact (reachable_results a s H i r res Hi Hin). Qed.
+Print Assumptions c05_stored_result_values.
+
+(* Truncation, exactly: a text longer than the limit keeps as many of its first characters as the limit allows *)
+Theorem c05_truncate_exact : forall (s : text) (limit : Z),
+  ((Z.max limit 0 < Z.of_nat (length s))%Z -> trunc s limit = Some (firstn (Z.to_nat (Z.max limit 0)) s)) /\
+  ((3 <= limit)%Z -> (limit < Z.of_nat (length s))%Z ->
+     trunc_ellipsis s limit = Some (firstn (Z.to_nat (limit - 3)) s ++ ellipsis) /\
+     length (firstn (Z.to_nat (limit - 3)) s ++ ellipsis) = Z.to_nat limit).
+Proof. intros s limit. split; [apply trunc_exact|apply trunc_ellipsis_exact]. Qed.
+Print Assumptions c05_truncate_exact.
